@@ -26,23 +26,39 @@ COQ_IMPORTS = "From PAV Require Import Base.NumOps Model.C13Lib."
 SHARD = 40
 RULE = ("util level (autoarray.util.transformer / inversion_interferometer_util functions called directly): grids of 0-12 "
         "(y,x) points and 0-8 (u,v) baselines, either on the half-integer lattice (every phase a multiple of a quarter turn: "
-        "exact trig table) or on a 1/16 lattice (generic phases); zero and repeated baselines; integer / quarter valued images, "
-        "signed mapping matrices with zeros, arbitrary integer preload tables incl. 0 x K tables, complex visibilities, complex "
-        "positive noise maps with real/imag parts in {1/2,1,2,4}; image_via_jit_from with n_pixels <, =, > grid rows. "
-        "Budgets: quick 40 util batches (8 ops each) + 50 geometries; thorough 400 + 500. Class level: Mask2D of shape up to 5x5 (non-square, 0..16 unmasked pixels incl. outer ring, fully masked, single pixel), "
+        "exact trig table) or on a 1/16 lattice (generic phases); zero and repeated baselines; images / matrix COLUMNS / visibility "
+        "vectors / reconstructions = (integer or quarter) * 2^e with e in {0, -7 .. -200, +20 .. +100} per vector (entries within a "
+        "vector spread over at most 2^-20), signed mapping matrices with zeros, noise maps {1/2,1,2,4} * 2^{0, +-20, +-50}, arbitrary "
+        "integer preload tables incl. 0 x K tables; image_via_jit_from with n_pixels <, =, > grid rows; batches come in sibling pairs "
+        "with identical shapes; every 2-D argument as C-ordered, Fortran-ordered or a strided view; every function is called twice "
+        "(results must be identical) and every argument must be unchanged afterwards. All comparisons are RELATIVE to the l1 norm "
+        "of the linear argument (1e-9). Budgets: quick 36 util batches (8 ops each) + 32 geometries + 28 histories; thorough 400 + 500 + 280. "
+        "Class level: Mask2D of shape up to 5x5 (non-square, 0..16 unmasked pixels incl. outer ring, fully masked, single pixel), "
         "pixel scales (sy,sx) in {1/4..3} independently, origins k/4, baselines up to 2e5 wavelengths (phases of several turns), "
         "TransformerDFT(preload on/off).visibilities_from / image_from / transform_mapping_matrix with slim- and native-stored "
         "images, InversionInterferometerMapping(DatasetInterface(Visibilities, VisibilitiesNoiseMap, TransformerDFT), 1-3 linear "
         "objects with/without regularization, explicit or config-default diagonal value).data_vector / curvature_matrix / "
-        "operated_mapping_matrix, aa.Inversion factory. Python-side relations: preload on = off, native = slim storage, "
-        "adjoint dot test, column-wise transform. Non-trivial = at least 2 pixels and one non-zero baseline; distinct = distinct JSON input.")
+        "operated_mapping_matrix (read in both orders, twice, and through a second inversion), aa.Inversion factory, plus a SIBLING "
+        "inversion through the same transformer object (rows of M / data / noise rotated, regularization flags flipped). "
+        "Histories (one Coq case each, every step compared with the model independently): 2-4 TransformerDFT objects alive in one "
+        "interpreter that differ in exactly ONE construction ingredient (mask shifted by one pixel / permuted / one pixel moved / "
+        "point-reflected / reshaped with the same row-major bytes / transposed / one pixel more or fewer, pixel scales swapped, origin "
+        "moved, one baseline changed / order reversed / negated, preload flipped, identical twin), the ingredient being a new object, "
+        "the same Mask2D / ndarray object shared, or the caller's Mask2D / uv array EDITED IN PLACE before the next construction; "
+        "then 1-3 kinds of call per live object, often doubled with a sibling argument (the same object again, the same object "
+        "edited in place, values rotated / negated / scaled by 2^-k / one entry changed, equal values in a new object), arguments "
+        "shared between sibling transformers, images slim / native / store_native / derived by arithmetic, matrices C / F / strided, "
+        "uv as int or float arrays; calls of different objects interleaved. Python-side relations: preload on = off, native = slim "
+        "storage, adjoint dot test, column-wise transform, arguments unchanged, second call identical. Non-trivial = at least 2 "
+        "pixels and one non-zero baseline (histories: at least 2 objects and 2 calls); distinct = distinct JSON input.")
 EXHAUSTIVE = {}
 TRUSTED = ["hand-written Gallina model coq/Model/C13.v (scatter loops, sparsity test, preload tables, grid of unmasked pixel centres, "
            "normal equations), tied to /repo by this correspondence run: model and specification are evaluated inside Coq (vm_compute) "
            "on the exact rational values of the doubles the implementation received and compared with its outputs to 1e-9 "
-           "(relative above 1; the grid to 1e-12 relative)",
+           "RELATIVE to the l1 norm of the linear argument (image, column, visibilities, ...; all-zero argument: exact); preload "
+           "tables to 1e-9 absolute, the grid to 1e-12 relative",
            "execution device QOpsT (coq/Model/C13Lib.v): cos/sin of a rational number of turns, exact at quarter turns, otherwise a "
-           "22-term Taylor series on a 2^-90 lattice (error < 1e-20); never used in a theorem",
+           "10-term Taylor polynomials in 2^-60 fixed point (error < 1e-16); never used in a theorem",
            "numpy element-wise arithmetic, np.dot (Gram product), np.hstack, complex accumulation as two real accumulations; "
            "np.cos/np.sin/np.pi accurate to a few ulp",
            "minimal stand-in for the absent optional module pylops (base class only), installed by harness/c13.py"]
@@ -81,13 +97,28 @@ def rmout(a): return [[frac(x) for x in r] for r in np.asarray(a)]
 def short(x): return str(x)[:400]
 
 # ----------------------------------------------------------------------------- generators
+# magnitudes: a whole image / column / visibility vector is scaled by an exact power of two 2^e (tiny: below every
+# plausible absolute threshold 1e-3 .. 1e-60; huge), entries inside it spread over at most 2^-20 so that no entry is
+# negligible against the l1 norm at the 1e-9 relative tolerance
+EXPS = [0, 0, 0, 0, 0, -7, -10, -14, -20, -24, -27, -30, -34, -40, -50, -60, -100, -200, 20, 40, 100]
+def rexp(rng, on=True): return rng.choice(EXPS) if on else 0
 def rval(rng, sparse=False):
     if sparse and rng.random() < 0.4: return Fraction(0)
     if rng.random() < 0.3: return Fraction(rng.randint(-20, 20), 4)
     return Fraction(rng.randint(-9, 9))
-def rvals(rng, n, sparse=False): return [rval(rng, sparse) for _ in range(n)]
-def rcv(rng, n): return [(rval(rng), rval(rng)) for _ in range(n)]
-def rnoise(rng, n): return [(rng.choice(NOISE), rng.choice(NOISE)) for _ in range(n)]
+def rvals(rng, n, sparse=False, e=0):
+    out = []
+    for _ in range(n):
+        sub = rng.choice([0, 0, 0, 0, -10, -20]) if e != 0 or rng.random() < 0.15 else 0
+        out.append(rval(rng, sparse) * Fraction(2) ** (e + sub))
+    return out
+def rmat(rng, n, P, mag=True):
+    """n x P signed matrix with zeros; every COLUMN has its own magnitude"""
+    cols = [rvals(rng, n, sparse=True, e=rexp(rng, mag)) for _ in range(P)]
+    return [[cols[j][i] for j in range(P)] for i in range(n)]
+def rcv(rng, n, e=0): return list(zip(rvals(rng, n, e=e), rvals(rng, n, e=e)))
+def rnoise(rng, n, e=0): return [(rng.choice(NOISE) * Fraction(2) ** e, rng.choice(NOISE) * Fraction(2) ** e) for _ in range(n)]
+NOISE_EXPS = [0, 0, 0, -20, 20, -50, 50]
 
 def rgrid_uv(rng, npix, K, lattice):
     """lattice 'quarter': coordinates and baselines multiples of 1/2 -> phases multiples of 1/4 turn (exact trig);
@@ -102,8 +133,8 @@ def rgrid_uv(rng, npix, K, lattice):
     if K >= 2 and rng.random() < 0.35: uv[rng.randrange(K)] = uv[rng.randrange(K)]               # repeated baseline
     return grid, uv
 
-def rmask(rng):
-    H, W = rng.randint(1, 5), rng.randint(1, 5)
+def rmask(rng, maxdim=5, maxpix=16):
+    H, W = rng.randint(1, maxdim), rng.randint(1, maxdim)
     style = rng.choice(["random", "random", "random", "full", "single", "ring", "empty"])
     if style == "full": m = [[False] * W for _ in range(H)]
     elif style == "empty": m = [[True] * W for _ in range(H)]
@@ -113,7 +144,7 @@ def rmask(rng):
     else:
         p = rng.choice([0.2, 0.5, 0.8])
         m = [[rng.random() > p for _ in range(W)] for _ in range(H)]
-    while sum(1 for r in m for b in r if not b) > 16:
+    while sum(1 for r in m for b in r if not b) > maxpix:
         m[rng.randrange(H)][rng.randrange(W)] = True
     return m
 
@@ -135,64 +166,302 @@ def ruv_class(rng, K):
     return uv
 
 def npix_of(m): return sum(1 for r in m for b in r if not b)
+LAYOUTS = ["c", "c", "f", "view"]
 
-def gen_inputs(tier, rng):
-    n = 400 if tier == "thorough" else 40
+def gen_util(tier, rng):
+    n = 400 if tier == "thorough" else 36
     util_ops = ["preload", "vispre", "vis", "image", "tmmpre", "tmm", "data", "recon"]
+    first = None
     for i in range(n):
-        lattice = "quarter" if i % 2 else "sixteenth"
-        npix = rng.choice([0, 1, 2, 3, 5, 8, 12]); K = rng.choice([0, 1, 2, 3, 5, 8]); P = rng.choice([0, 1, 2, 3, 4])
+        # batches come in sibling PAIRS with identical shapes (npix, K, P); the second batch keeps all ingredients of the first
+        # except ONE group (the linear arguments, or the grid / tables, or the baselines / noise): a result remembered under a
+        # key that omits that ingredient (shapes only, shapes + checksum of the matrix, ...) shows in the second batch
+        lattice = "quarter" if (i // 2) % 2 else "sixteenth"
+        if i % 2 == 0 or first is None:
+            shapes = (rng.choice([0, 1, 2, 3, 5, 8, 12]), rng.choice([0, 1, 2, 3, 5, 8]), rng.choice([0, 1, 2, 3, 4]))
+            keep = set()
+        else:
+            shapes = first["shapes"]; keep = rng.choice([{"values"}, {"values", "uv"}, {"grid", "uv"}, {"grid", "values"}, set()])
+        npix, K, P = shapes
         grid, uv = rgrid_uv(rng, npix, K, lattice)
-        base = {"grid": [Sv(g) for g in grid], "uv": [Sv(u) for u in uv], "lattice": lattice}
+        cur = {"shapes": shapes, "grid": [Sv(g) for g in grid], "uv": [Sv(u) for u in uv]}
+        def pick(name, group, make):
+            """ingredient [name] of this batch: the first batch's if its group is kept, else fresh"""
+            cur[name] = first[name] if group in keep and first is not None and name in first else make()
+            return cur[name]
+        if "grid" in keep: cur["grid"] = first["grid"]
+        if "uv" in keep: cur["uv"] = first["uv"]
+        base = {"grid": cur["grid"], "uv": cur["uv"], "lattice": lattice}
         for op in util_ops:
-            d = dict(base, op=op)
-            if op in ("vis",): d["img"] = Sv(rvals(rng, npix, sparse=(i % 3 == 0)))
+            d = dict(base, op=op, lay=rng.choice(LAYOUTS))
+            if op in ("vis",): d["img"] = pick("vis_img", "values", lambda: Sv(rvals(rng, npix, sparse=(i % 3 == 0), e=rexp(rng))))
             elif op in ("vispre", "tmmpre"):
                 d.pop("grid"); d.pop("uv")
                 d["K"] = K
-                d["preR"] = Sm([[Fraction(rng.randint(-4, 4)) for _ in range(K)] for _ in range(npix)])
-                d["preI"] = Sm([[Fraction(rng.randint(-4, 4)) for _ in range(K)] for _ in range(npix)])
-                if op == "vispre": d["img"] = Sv(rvals(rng, npix, sparse=(i % 3 == 0)))
+                d["preR"] = pick(op + "R", "grid", lambda: Sm([[Fraction(rng.randint(-4, 4)) for _ in range(K)] for _ in range(npix)]))
+                d["preI"] = pick(op + "I", "grid", lambda: Sm([[Fraction(rng.randint(-4, 4)) for _ in range(K)] for _ in range(npix)]))
+                if op == "vispre": d["img"] = pick("vispre_img", "values", lambda: Sv(rvals(rng, npix, sparse=(i % 3 == 0), e=rexp(rng))))
                 else:
-                    d["P"] = P; d["M"] = Sm([rvals(rng, P, sparse=True) for _ in range(npix)])
+                    d["P"] = P; d["M"] = pick("tmmpre_M", "values", lambda: Sm(rmat(rng, npix, P)))
             elif op == "image":
                 r = rng.random()
                 d["n"] = npix if r < 0.7 else (rng.randint(0, npix) if r < 0.85 else npix + rng.randint(1, 2))
-                d["vis"] = [Sv(v) for v in rcv(rng, K)]
+                d["vis"] = pick("image_vis", "values", lambda: [Sv(v) for v in rcv(rng, K, e=rexp(rng))])
             elif op == "tmm":
-                d["P"] = P; d["M"] = Sm([rvals(rng, P, sparse=True) for _ in range(npix)])
+                d["P"] = P; d["M"] = pick("tmm_M", "values", lambda: Sm(rmat(rng, npix, P)))
             elif op == "data":
-                d = {"op": op, "P": P, "TM": [[Sv(c) for c in rcv(rng, P)] for _ in range(K)],
-                     "vis": [Sv(v) for v in rcv(rng, K)], "noise": [Sv(v) for v in rnoise(rng, K)]}
+                e1, e2, e3 = rexp(rng), rexp(rng), rng.choice(NOISE_EXPS)
+                d = {"op": op, "P": P, "TM": pick("data_TM", "grid", lambda: [[Sv(c) for c in rcv(rng, P, e=e1)] for _ in range(K)]),
+                     "vis": pick("data_vis", "values", lambda: [Sv(v) for v in rcv(rng, K, e=e2)]),
+                     "noise": pick("data_noise", "uv", lambda: [Sv(v) for v in rnoise(rng, K, e=e3)]), "lay": d["lay"]}
             elif op == "recon":
-                d = {"op": op, "P": P, "TM": [[Sv(c) for c in rcv(rng, P)] for _ in range(K)], "s": Sv(rvals(rng, P))}
+                d = {"op": op, "P": P, "TM": pick("recon_TM", "grid", lambda: [[Sv(c) for c in rcv(rng, P, e=rexp(rng))] for _ in range(K)]),
+                     "s": pick("recon_s", "values", lambda: Sv(rvals(rng, P, e=rexp(rng)))), "lay": d["lay"]}
             yield d
-    m = 500 if tier == "thorough" else 50
+        if i % 2 == 0: first = cur
+
+def gen_class(tier, rng):
+    m = 500 if tier == "thorough" else 32
     for i in range(m):
         g = rgeom(rng); npix = npix_of(g["m"])
         K = rng.choice([0, 1, 2, 3, 4, 6, 8]) if i % 7 == 0 else rng.choice([1, 2, 3, 4, 6, 8])
         uv = ruv_class(rng, K)
         base = {"geom": g, "uv": [Sv(u) for u in uv]}
         if i % 9 == 0: yield dict(base, op="tgrid")
-        yield dict(base, op="tvis", preload=bool(i % 2), native=bool((i // 2) % 2), img=Sv(rvals(rng, npix, sparse=(i % 3 == 0))))
-        if K > 0 or npix == 0 or True:
-            yield dict(base, op="timage", preload=bool(i % 2), vis=[Sv(v) for v in rcv(rng, K)], dot_img=Sv(rvals(rng, npix)))
+        yield dict(base, op="tvis", preload=bool(i % 2), native=bool((i // 2) % 2),
+                   img=Sv(rvals(rng, npix, sparse=(i % 3 == 0), e=rexp(rng))))
+        yield dict(base, op="timage", preload=bool(i % 2), vis=[Sv(v) for v in rcv(rng, K, e=rexp(rng))],
+                   dot_img=Sv(rvals(rng, npix, e=rexp(rng))))
         P = rng.choice([0, 1, 2, 3, 4]) if i % 5 == 0 else rng.choice([1, 2, 3])
         if npix > 0:
-            yield dict(base, op="ttmm", preload=bool((i // 2) % 2), P=P, M=Sm([rvals(rng, P, sparse=True) for _ in range(npix)]))
+            yield dict(base, op="ttmm", preload=bool((i // 2) % 2), P=P, M=Sm(rmat(rng, npix, P)), lay=rng.choice(LAYOUTS))
         if npix > 0 and K > 0 and (tier == "thorough" or i % 2 == 0):
             nobj = rng.choice([1, 1, 2, 3])
             objs = []
             for _ in range(nobj):
                 Pi = rng.choice([1, 1, 2, 3])
-                objs.append({"P": Pi, "M": Sm([rvals(rng, Pi, sparse=True) for _ in range(npix)]), "reg": rng.random() < 0.5})
+                objs.append({"P": Pi, "M": Sm(rmat(rng, npix, Pi, mag=(i % 4 == 0))), "reg": rng.random() < 0.5})
             value = rng.choice(["default", "1/8", "1", "2", "0"])
-            yield dict(base, op="inv", preload=bool(i % 2), objs=objs, data=[Sv(v) for v in rcv(rng, K)],
-                       noise=[Sv(v) for v in rnoise(rng, K)], value=value, factory=bool(i % 3 == 0))
+            en = rng.choice(NOISE_EXPS)
+            yield dict(base, op="inv", preload=bool(i % 2), objs=objs, data=[Sv(v) for v in rcv(rng, K, e=rexp(rng))],
+                       noise=[Sv(v) for v in rnoise(rng, K, e=en)], value=value, factory=bool(i % 3 == 0),
+                       sibling=rng.choice(["M", "data", "noise", "reg"]) if i % 4 in (0, 2) else None)
+
+# ---- histories: sibling transformers (differing in exactly ONE construction ingredient) alive in one interpreter, method
+# ---- calls interleaved, arguments reused / derived / edited in place
+def mask_cells(m): return [(y, x) for y, r in enumerate(m) for x, b in enumerate(r) if not b]
+def mask_from_cells(H, W, cells):
+    cs = set(cells); return [[(y, x) not in cs for x in range(W)] for y in range(H)]
+def mask_variant(rng, m, kind):
+    H, W = len(m), len(m[0]); cells = mask_cells(m); allc = [(y, x) for y in range(H) for x in range(W)]
+    if kind == "shift":                       # cyclic shift by one pixel: same pixel count
+        dy, dx = rng.choice([(0, 1), (1, 0), (0, -1), (-1, 0), (1, 1)])
+        return mask_from_cells(H, W, [((y + dy) % H, (x + dx) % W) for y, x in cells])
+    if kind == "perm": return mask_from_cells(H, W, rng.sample(allc, len(cells)))
+    if kind == "move1":
+        free = [c for c in allc if c not in cells]
+        if not free or not cells: return [r[:] for r in m]
+        out = cells[:]; out[rng.randrange(len(out))] = rng.choice(free); return mask_from_cells(H, W, out)
+    if kind == "flip": return [r[::-1] for r in m][::-1]        # point reflection: same count
+    if kind == "reshape":                    # same row-major contents, shape (W, H)
+        flat = [b for r in m for b in r]; return [flat[y * H:(y + 1) * H] for y in range(W)]
+    if kind == "transpose": return [[m[y][x] for y in range(H)] for x in range(W)]
+    if kind == "count":                      # one pixel more or fewer
+        free = [c for c in allc if c not in cells]
+        if free and (len(cells) <= 1 or rng.random() < 0.5): return mask_from_cells(H, W, cells + [rng.choice(free)])
+        if len(cells) >= 2: return mask_from_cells(H, W, cells[:-1])
+    return [r[:] for r in m]
+
+SIB_KINDS = ["shift", "origin", "perm", "scales", "move1", "uv_one", "flip", "reshape", "uv_rev", "count", "transpose", "uv_neg",
+             "same", "preload"]
+MASK_KINDS = ("shift", "perm", "move1", "flip", "count", "reshape", "transpose")
+
+def rot(l): return l[1:] + l[:1]
+def sibling_values(rng, kind, vals):
+    """an argument of the same shape that a too-coarse key (shape, sum, norm, first entry ...) cannot tell from [vals]"""
+    mode = rng.choice(["rot", "rot", "edit1", "neg", "scaled", "equal", "equal"])
+    if mode == "rot": return mode, rot(vals)
+    if mode == "neg":
+        if kind == "vis": return mode, Sv([-F(x) for x in vals])
+        if kind == "tmm": return mode, Sm([[-F(x) for x in r] for r in vals])
+        return mode, [Sv([-F(a), -F(b)]) for a, b in vals]
+    if mode == "scaled":
+        c = Fraction(2) ** rng.choice([-10, -27, -30, -40, -60, 20])
+        if kind == "vis": return mode, Sv([F(x) * c for x in vals])
+        if kind == "tmm": return mode, Sm([[F(x) * c for x in r] for r in vals])
+        return mode, [Sv([F(a) * c, F(b) * c]) for a, b in vals]
+    if mode == "edit1" and len(vals) > 0:
+        k = rng.randrange(len(vals)); out = [v[:] if isinstance(v, list) else v for v in vals]
+        if kind == "vis": out[k] = S(F(out[k]) * 3 + Fraction(1, 4) * (F(out[k]) == 0))
+        elif kind == "tmm":
+            if out[k]: out[k][0] = S(F(out[k][0]) * 3 + Fraction(1, 4) * (F(out[k][0]) == 0))
+        else: out[k] = [out[k][1], S(F(out[k][0]) + 1)]
+        return mode, out
+    return "equal", vals
+
+def gen_hist_one(rng, h=0):
+    H, W = rng.choice([(1, 3), (2, 2), (2, 3), (3, 2), (3, 3), (2, 4), (4, 3), (3, 4)])
+    if SIB_KINDS[h % len(SIB_KINDS)] in ("reshape", "transpose"): H, W = rng.choice([(2, 3), (3, 2), (2, 4), (4, 3), (3, 4)])
+    n = rng.randint(1, min(H * W - 1, 5))
+    m0 = mask_from_cells(H, W, rng.sample([(y, x) for y in range(H) for x in range(W)], n))
+    sy = rng.choice(SCALES); sx = sy if rng.random() < 0.3 else rng.choice(SCALES)
+    oy, ox = (Fraction(0), Fraction(0)) if rng.random() < 0.5 else (Fraction(rng.randint(-6, 6), 4), Fraction(rng.randint(-6, 6), 4))
+    g0 = {"m": m0, "sy": S(sy), "sx": S(sx), "oy": S(oy), "ox": S(ox)}
+    K = rng.choice([1, 2, 2, 3, 4])
+    uv0 = [Sv(u) for u in ruv_class(rng, K)]
+    steps = []
+    masks, uvs, trs = [], [], []        # python-side object tables mirrored by run_hist
+    def add_mask(g, edit=None):
+        if edit is None:
+            masks.append(g); steps.append({"s": "mask", "geom": g}); return len(masks) - 1
+        masks[edit] = g; steps.append({"s": "mask", "geom": g, "edit": edit})
+        for t in trs:
+            if t["mask"] == edit: t["live"] = False
+        return edit
+    def add_uv(uv, edit=None):
+        integral = all(Fraction(c).denominator == 1 for u in uv for c in u)
+        if edit is None:
+            uvs.append(uv); steps.append({"s": "uv", "uv": uv, "dtype": "int" if integral and rng.random() < 0.4 else "float",
+                                          "lay": rng.choice(LAYOUTS)}); return len(uvs) - 1
+        uvs[edit] = uv; steps.append({"s": "uv", "uv": uv, "edit": edit})
+        for t in trs:
+            if t["uv"] == edit: t["live"] = False
+        return edit
+    def add_tr(mk, uk, preload):
+        trs.append({"mask": mk, "uv": uk, "live": True, "npix": npix_of(masks[mk]["m"]), "K": len(uvs[uk]), "geom": masks[mk]})
+        steps.append({"s": "new", "mask": mk, "uv": uk, "preload": preload})
+    nid = [0]; last = {}; e_h = rexp(rng); called = set()
+    def call(i, k, vals=None, mode=None, first=None):
+        t = trs[i]; npix, Kt = t["npix"], t["K"]; nid[0] += 1
+        st = {"s": k, "t": i, "id": nid[0]}
+        if first is not None and mode in ("equal", "edit1", "rot") and rng.random() < 0.6:
+            st["reuse"] = first["id"]                  # equal: the very same object again; edit1 / rot: edited in place
+        if k == "vis":
+            key = ("vis", npix); e = e_h if rng.random() < 0.6 else rexp(rng)
+            if vals is None:
+                if key in last and rng.random() < 0.5: vals = last[key]
+                else: vals = Sv(rvals(rng, npix, sparse=rng.random() < 0.3, e=e))
+            st.update(img=vals, how=rng.choice(["slim", "native", "store_native", "sum", "scaled"]), own_mask=rng.random() < 0.5)
+        elif k == "tmm":
+            if vals is None:
+                P = rng.choice([1, 2, 2, 3]); key = ("tmm", npix, P)
+                if key in last and rng.random() < 0.5: vals = last[key]
+                else: vals = Sm(rmat(rng, npix, P))
+            else: P = first["P"]; key = ("tmm", npix, P)
+            st.update(P=P, M=vals, how=rng.choice(["c", "f", "view"]))
+        else:
+            key = ("image", Kt)
+            if vals is None:
+                if key in last and rng.random() < 0.5: vals = last[key]
+                else: vals = [Sv(v) for v in rcv(rng, Kt, e=e_h if rng.random() < 0.6 else rexp(rng))]
+            st.update(vis=vals, how=rng.choice(["fresh", "sum"]))
+        last[key] = vals
+        return st
+    def emit_calls():
+        """calls of every live transformer not called yet.  Per transformer: 1-3 kinds of call, often DOUBLED (a second call
+        through the same object with a sibling argument: the same array object again, the same object edited in place, a
+        rotation / negation / rescaling of the values, equal values in a new object).  First calls often take the values a
+        sibling transformer was given.  The per-transformer sequences are merged at random (interleaved)."""
+        seqs = []
+        for i, t in enumerate(trs):
+            if not t["live"] or i in called: continue
+            called.add(i); seq = []
+            kinds = rng.sample(["vis", "tmm", "image"], rng.choice([1, 2, 2, 3]))
+            if "image" in kinds and len(kinds) == 1: kinds.append(rng.choice(["vis", "tmm"]))    # image_from alone never reads the tables
+            for k in kinds:
+                first = call(i, k); seq.append(first)
+                if rng.random() < 0.5:
+                    v0 = first["img"] if k == "vis" else first["M"] if k == "tmm" else first["vis"]
+                    mode, v1 = sibling_values(rng, k, v0)
+                    seq.append(call(i, k, vals=v1, mode=mode, first=first))
+            seqs.append(seq)
+        while any(seqs):
+            q = rng.choice([q for q in seqs if q]); steps.append(q.pop(0))
+    mk, uk = add_mask(g0), add_uv(uv0)
+    # first round over the sibling kinds: tables preloaded; second round: alternating
+    r = h % (2 * len(SIB_KINDS))
+    pre0 = (rng.random() < 0.7) if h >= 2 * len(SIB_KINDS) else True if r < len(SIB_KINDS) else ((r - len(SIB_KINDS)) % 3 != 2)
+    add_tr(mk, uk, pre0)
+    nsib = rng.choice([1, 2, 2, 3])
+    edit_at = rng.randrange(nsib) if h % 3 == 1 else None      # at most one in-place edit of a caller's object per history
+    for si in range(nsib):
+        src = rng.randrange(len(trs)) if si else 0
+        if not trs[src]["live"]: src = max(i for i, t in enumerate(trs) if t["live"])
+        g = masks[trs[src]["mask"]]; uv = uvs[trs[src]["uv"]]
+        # the first sibling's kind goes round-robin over the histories so that every ingredient is varied alone several times
+        kind = SIB_KINDS[h % len(SIB_KINDS)] if si == 0 else rng.choice(SIB_KINDS)
+        if si == edit_at and kind not in MASK_KINDS[:5] + ("uv_one", "uv_rev", "uv_neg"):
+            if si == 0: edit_at = 1 if nsib > 1 else None          # never replace the round-robin kind
+            else: kind = rng.choice(["shift", "move1", "uv_one"])
+        pre = pre0 if si == 0 or rng.random() < 0.75 else (not pre0)
+        mk, uk = trs[src]["mask"], trs[src]["uv"]
+        if kind in MASK_KINDS:
+            g2 = dict(g, m=mask_variant(rng, g["m"], kind))
+            same_shape = (len(g2["m"]), len(g2["m"][0])) == (len(g["m"]), len(g["m"][0]))
+            if si == edit_at and same_shape:      # the caller edits ITS Mask2D in place, then builds the next transformer from it
+                emit_calls(); mk = add_mask(g2, mk)
+            else: mk = add_mask(g2)
+        elif kind == "scales":
+            g2 = dict(g, sy=g["sx"], sx=g["sy"]) if g["sy"] != g["sx"] else dict(g, sx=S(F(g["sx"]) * 2))
+            mk = add_mask(g2)
+        elif kind == "origin":
+            g2 = dict(g, oy=S(F(g["oy"]) + Fraction(rng.choice([-2, -1, 1, 2]), 4)), ox=S(F(g["ox"]) + Fraction(rng.choice([-1, 0, 1]), 4)))
+            mk = add_mask(g2)
+        elif kind in ("uv_one", "uv_rev", "uv_neg"):
+            uv2 = [list(u) for u in uv]
+            if kind == "uv_one":
+                k = rng.randrange(len(uv2)); uv2[k] = [S(F(uv2[k][0]) + rng.choice([-3, 1, 1000])), uv2[k][1]]
+            elif kind == "uv_rev": uv2 = uv2[::-1] if len(uv2) > 1 and uv2 != uv2[::-1] else [[u[1], u[0]] for u in uv2]
+            else: uv2 = [[S(-F(u[0])), S(-F(u[1]))] for u in uv2]
+            if si == edit_at:
+                emit_calls(); uk = add_uv(uv2, uk)
+            else: uk = add_uv(uv2)
+        elif kind == "preload": pre = not pre0
+        elif kind == "same" and rng.random() < 0.5: mk = add_mask(dict(g))     # an equal but distinct Mask2D object
+        add_tr(mk, uk, pre)
+    emit_calls()
+    return {"op": "hist", "steps": steps}
+
+def gen_hist(tier, rng):
+    for h in range(280 if tier == "thorough" else 28):
+        yield gen_hist_one(rng, h)
+
+def gen_inputs(tier, rng):
+    yield from gen_util(tier, rng)
+    yield from gen_class(tier, rng)
+    yield from gen_hist(tier, rng)
 
 # ----------------------------------------------------------------------------- running
 def pairs(l): return [(Fraction(a), Fraction(b)) for a, b in l]
-def grid_arr(g): return np.array(flm(g), dtype=float).reshape((len(g), 2))
+def lay(a, mode):
+    """the same values through a different memory layout: C-contiguous, Fortran-ordered, or a strided view of a larger array"""
+    a = np.array(a)
+    if mode == "f" and a.ndim == 2: return np.asfortranarray(a)
+    if mode == "view":
+        if a.ndim == 2:
+            big = np.full((a.shape[0] * 2 + 1, a.shape[1] * 2 + 1), 7, dtype=a.dtype); v = big[1::2, 1::2]
+        else:
+            big = np.full((a.shape[0] * 2 + 1,), 7, dtype=a.dtype); v = big[1::2]
+        v[...] = a
+        return v
+    return a
+def grid_arr(g, mode="c"): return lay(np.array(flm(g), dtype=float).reshape((len(g), 2)), mode)
+def same(a, b):
+    a, b = np.asarray(a), np.asarray(b)
+    return a.shape == b.shape and a.dtype == b.dtype and bool(np.all((a == b) | ((a != a) & (b != b))))
+
+class Watch:
+    """(d) the caller's arguments must hold the same values after the call; (a) a second identical call must return the same"""
+    def __init__(self): self.items = []; self.ok = True; self.why = []
+    def arg(self, name, a): self.items.append((name, a, np.array(a, copy=True))); return a
+    def done(self):
+        for name, a, snap in self.items:
+            if not same(np.asarray(a), snap): self.ok = False; self.why.append("argument modified in place: " + name)
+        self.items = []
+    def twice(self, out, f):
+        out2 = f()
+        if not same(np.asarray(out), np.asarray(out2)): self.ok = False; self.why.append("second identical call returned a different result")
+        self.done()
 
 def mk_mask(aa, g):
     return aa.Mask2D(mask=np.array(g["m"], dtype=bool).reshape((len(g["m"]), len(g["m"][0]))),
@@ -202,62 +471,81 @@ def run_case(inp):
     aa = import_aa()
     from autoarray.operators import transformer_util as tu
     from autoarray.inversion.inversion.interferometer import inversion_interferometer_util as iu
-    op = inp["op"]
+    op = inp["op"]; L = inp.get("lay", "c")
+    w = Watch()
     if "grid" in inp:
         grid = pairs(inp["grid"]); uv = pairs(inp["uv"])
-        ga, ua = grid_arr(grid), grid_arr(uv)
+        ga, ua = w.arg("grid", grid_arr(grid, L)), w.arg("uv", grid_arr(uv, L))
         nontriv = len(grid) >= 2 and any(u != (0, 0) for u in uv)
     else:
         nontriv = True
     base = {"kind": op, "nontrivial": nontriv, "py_ok": None}
+    def fin(d):
+        if not w.ok: d["py_ok"] = False; d["detail"] = "; ".join(w.why)
+        return d
     if op == "preload":
         R = tu.preload_real_transforms(grid_radians=ga, uv_wavelengths=ua)
         I = tu.preload_imag_transforms(ga, ua)
+        w.twice(R, lambda: tu.preload_real_transforms(ga, ua))
         coq = f"(KPreload {ccv(grid)} {ccv(uv)} {cqm(rmout(R))} {cqm(rmout(I))})"
-        return dict(base, coq=coq, out=short([R.tolist(), I.tolist()]))
+        return fin(dict(base, coq=coq, out=short([R.tolist(), I.tolist()])))
     if op == "vispre":
         K = inp["K"]; img = Fv(inp["img"]); preR = Fm(inp["preR"]); preI = Fm(inp["preI"])
-        out = tu.visibilities_via_preload_jit_from(np.array(fl(img)), arr2(preR, K), arr2(preI, K))
+        a = (w.arg("image", lay(np.array(fl(img)), L)), w.arg("preR", lay(arr2(preR, K), L)), w.arg("preI", lay(arr2(preI, K), L)))
+        out = tu.visibilities_via_preload_jit_from(*a)
+        w.twice(out, lambda: tu.visibilities_via_preload_jit_from(*a))
         coq = f"(KVisPre {cnat(K)} {cqv(img)} {cqm(preR)} {cqm(preI)} {ccv(cvout(out))})"
-        return dict(base, coq=coq, out=short(out.tolist()), nontrivial=len(img) >= 2 and K >= 1)
+        return fin(dict(base, coq=coq, out=short(out.tolist()), nontrivial=len(img) >= 2 and K >= 1))
     if op == "vis":
-        img = Fv(inp["img"])
-        out = tu.visibilities_jit(np.array(fl(img)), ga, ua)
-        return dict(base, coq=f"(KVis {cqv(img)} {ccv(grid)} {ccv(uv)} {ccv(cvout(out))})", out=short(out.tolist()))
+        img = Fv(inp["img"]); ia = w.arg("image", lay(np.array(fl(img)), L))
+        out = tu.visibilities_jit(ia, ga, ua)
+        w.twice(out, lambda: tu.visibilities_jit(ia, ga, ua))
+        return fin(dict(base, coq=f"(KVis {cqv(img)} {ccv(grid)} {ccv(uv)} {ccv(cvout(out))})", out=short(out.tolist())))
     if op == "image":
         vis = pairs(inp["vis"]); n = inp["n"]
-        va = np.array(flm(vis), dtype=float).reshape((len(vis), 2))
+        va = w.arg("visibilities", lay(np.array(flm(vis), dtype=float).reshape((len(vis), 2)), L))
         try:
             o = tu.image_via_jit_from(n, ga, ua, va); out = ("ok", rvout(o))
+            w.twice(o, lambda: tu.image_via_jit_from(n, ga, ua, va))
         except Exception as e:
             out = ("raise", exn_name(e))
-        return dict(base, coq=f"(KImage {cnat(n)} {ccv(grid)} {ccv(uv)} {ccv(vis)} {cres(out, cqv)})", out=short(out))
+        return fin(dict(base, coq=f"(KImage {cnat(n)} {ccv(grid)} {ccv(uv)} {ccv(vis)} {cres(out, cqv)})", out=short(out)))
     if op == "tmmpre":
         K, P = inp["K"], inp["P"]; M = Fm(inp["M"]); preR = Fm(inp["preR"]); preI = Fm(inp["preI"])
-        out = tu.transformed_mapping_matrix_via_preload_jit_from(arr2(M, P), arr2(preR, K), arr2(preI, K))
+        a = (w.arg("mapping_matrix", lay(arr2(M, P), L)), w.arg("preR", arr2(preR, K)), w.arg("preI", arr2(preI, K)))
+        out = tu.transformed_mapping_matrix_via_preload_jit_from(*a)
+        w.twice(out, lambda: tu.transformed_mapping_matrix_via_preload_jit_from(*a))
         coq = f"(KTmmPre {cnat(K)} {cnat(P)} {cqm(M)} {cqm(preR)} {cqm(preI)} {ccm(cmout(out))})"
-        return dict(base, coq=coq, out=short(out.tolist()), nontrivial=len(M) >= 2 and K >= 1 and P >= 1)
+        return fin(dict(base, coq=coq, out=short(out.tolist()), nontrivial=len(M) >= 2 and K >= 1 and P >= 1))
     if op == "tmm":
-        P = inp["P"]; M = Fm(inp["M"])
-        out = tu.transformed_mapping_matrix_jit(arr2(M, P), ga, ua)
-        return dict(base, coq=f"(KTmm {cnat(P)} {cqm(M)} {ccv(grid)} {ccv(uv)} {ccm(cmout(out))})", out=short(out.tolist()))
+        P = inp["P"]; M = Fm(inp["M"]); ma = w.arg("mapping_matrix", lay(arr2(M, P), L))
+        out = tu.transformed_mapping_matrix_jit(ma, ga, ua)
+        w.twice(out, lambda: tu.transformed_mapping_matrix_jit(ma, ga, ua))
+        return fin(dict(base, coq=f"(KTmm {cnat(P)} {cqm(M)} {ccv(grid)} {ccv(uv)} {ccm(cmout(out))})", out=short(out.tolist())))
     if op == "data":
         P = inp["P"]; TM = [pairs(r) for r in inp["TM"]]; vis = pairs(inp["vis"]); noise = pairs(inp["noise"])
-        tm = np.array([[complex(float(a), float(b)) for a, b in r] for r in TM], dtype=complex).reshape((len(TM), P))
-        out = iu.data_vector_via_transformed_mapping_matrix_from(tm, cplx(vis), cplx(noise))
-        return dict(base, coq=f"(KData {cnat(P)} {ccm(TM)} {ccv(vis)} {ccv(noise)} {cqv(rvout(out))})", out=short(out.tolist()),
-                    nontrivial=P >= 1 and len(TM) >= 2)
+        tm = w.arg("transformed_mapping_matrix", lay(np.array([[complex(float(a), float(b)) for a, b in r] for r in TM], dtype=complex).reshape((len(TM), P)), L))
+        va, na = w.arg("visibilities", cplx(vis)), w.arg("noise_map", cplx(noise))
+        out = iu.data_vector_via_transformed_mapping_matrix_from(tm, va, na)
+        w.twice(out, lambda: iu.data_vector_via_transformed_mapping_matrix_from(tm, va, na))
+        return fin(dict(base, coq=f"(KData {cnat(P)} {ccm(TM)} {ccv(vis)} {ccv(noise)} {cqv(rvout(out))})", out=short(out.tolist()),
+                        nontrivial=P >= 1 and len(TM) >= 2))
     if op == "recon":
         P = inp["P"]; TM = [pairs(r) for r in inp["TM"]]; s = Fv(inp["s"])
-        tm = np.array([[complex(float(a), float(b)) for a, b in r] for r in TM], dtype=complex).reshape((len(TM), P))
-        out = iu.mapped_reconstructed_visibilities_from(tm, np.array(fl(s)))
-        return dict(base, coq=f"(KRecon {ccm(TM)} {cqv(s)} {ccv(cvout(out))})", out=short(out.tolist()),
-                    nontrivial=P >= 1 and len(TM) >= 2)
+        tm = w.arg("transformed_mapping_matrix", lay(np.array([[complex(float(a), float(b)) for a, b in r] for r in TM], dtype=complex).reshape((len(TM), P)), L))
+        sa = w.arg("reconstruction", np.array(fl(s)))
+        out = iu.mapped_reconstructed_visibilities_from(tm, sa)
+        w.twice(out, lambda: iu.mapped_reconstructed_visibilities_from(tm, sa))
+        return fin(dict(base, coq=f"(KRecon {ccm(TM)} {cqv(s)} {ccv(cvout(out))})", out=short(out.tolist()),
+                        nontrivial=P >= 1 and len(TM) >= 2))
+    if op == "hist": return run_hist(aa, inp, base)
     return run_class(aa, inp, base)
 
-def close(a, b, t=1e-9):
+def close(a, b, scale, t=1e-12):
+    """|a - b| <= t * scale element-wise (scale: the l1 norm of the linear argument, scalar or per column)"""
     a, b = np.asarray(a), np.asarray(b)
-    return a.shape == b.shape and bool(np.all(np.abs(a - b) <= t * np.maximum(1.0, np.abs(b))))
+    return a.shape == b.shape and bool(np.all(np.abs(a - b) <= t * np.asarray(scale, dtype=float)))
+def l1f(v): return float(sum(abs(Fraction(x)) for x in v))
 
 def run_class(aa, inp, base):
     op = inp["op"]; g = inp["geom"]; uv = pairs(inp["uv"])
@@ -266,70 +554,225 @@ def run_class(aa, inp, base):
     ua = np.array(flm(uv), dtype=float).reshape((len(uv), 2))
     base["nontrivial"] = npix >= 2 and any(u != (0, 0) for u in uv)
     G = cgeom(g); U = ccv(uv); Pi = cq(PI)
+    w = Watch(); w.arg("uv_wavelengths", ua); w.arg("real_space_mask", mask)
     def tr(preload): return aa.TransformerDFT(uv_wavelengths=ua, real_space_mask=mask, preload_transform=preload)
+    def fin(d):
+        w.done()
+        if not w.ok: d["py_ok"] = False; d["detail"] = "; ".join(w.why)
+        return d
     if op == "tgrid":
         t = tr(False)
         out = [(frac(y), frac(x)) for y, x in np.array(t.grid).reshape((npix, 2))]
         ok = tuple(t.shape) == (len(uv), npix) and t.total_image_pixels == npix and t.total_visibilities == len(uv)
-        return dict(base, coq=f"(KTGrid {Pi} {G} {ccv(out)})", out=short(out), py_ok=ok)
+        return fin(dict(base, coq=f"(KTGrid {Pi} {G} {ccv(out)})", out=short(out), py_ok=ok))
     if op == "tvis":
-        img = Fv(inp["img"])
+        img = Fv(inp["img"]); sc = l1f(img)
         def image(native):
             im = aa.Array2D(values=fl(img), mask=mask)
             return im.native if native else im
-        out = np.array(tr(inp["preload"]).visibilities_from(image=image(inp["native"])))
+        t = tr(inp["preload"]); im0 = w.arg("image", image(inp["native"]))
+        out = np.array(t.visibilities_from(image=im0))
+        w.twice(out, lambda: np.array(t.visibilities_from(image=im0)))       # the same object evaluated twice
         # relations: preload on = off; native storage = slim storage
         others = [np.array(tr(p).visibilities_from(image=image(nat))) for p in (True, False) for nat in (True, False)]
-        ok = all(close(o, out, 1e-12) for o in others)
-        return dict(base, coq=f"(KTVis {Pi} {G} {U} {cbool(inp['preload'])} {cqv(img)} {ccv(cvout(out))})", out=short(out.tolist()),
-                    py_ok=ok, detail=None if ok else short([o.tolist() for o in others]))
+        ok = all(close(o, out, sc) for o in others)
+        return fin(dict(base, coq=f"(KTVis {Pi} {G} {U} {cbool(inp['preload'])} {cqv(img)} {ccv(cvout(out))})", out=short(out.tolist()),
+                        py_ok=ok, detail=None if ok else short([o.tolist() for o in others])))
     if op == "timage":
         vis = pairs(inp["vis"])
         t = tr(inp["preload"])
-        V = aa.Visibilities(visibilities=cplx(vis))
+        V = w.arg("visibilities", aa.Visibilities(visibilities=cplx(vis)))
         res = t.image_from(visibilities=V)
         out = np.array(res.slim)
+        w.twice(out, lambda: np.array(t.image_from(visibilities=V).slim))
         ok = res.shape_native == mask.shape_native and bool(np.all(np.array(res.native)[np.array(mask)] == 0.0))
         # adjoint (dot) test: Re <V, A I> = <image_from(V), I>
         I = Fv(inp["dot_img"])
         AI = np.array(t.visibilities_from(image=aa.Array2D(values=fl(I), mask=mask)))
         lhs = float(np.sum(np.real(np.conj(cplx(vis)) * AI))); rhs = float(np.dot(out, np.array(fl(I)))) if npix else 0.0
-        ok = ok and abs(lhs - rhs) <= 1e-9 * max(1.0, abs(lhs))
-        return dict(base, coq=f"(KTImage {Pi} {G} {U} {ccv(vis)} {cqv(rvout(out))})", out=short(out.tolist()), py_ok=ok,
-                    detail=None if ok else short([lhs, rhs]))
+        ok = ok and abs(lhs - rhs) <= 1e-9 * l1f([c for v in vis for c in v]) * l1f(I)
+        return fin(dict(base, coq=f"(KTImage {Pi} {G} {U} {ccv(vis)} {cqv(rvout(out))})", out=short(out.tolist()), py_ok=ok,
+                        detail=None if ok else short([lhs, rhs])))
     if op == "ttmm":
-        P = inp["P"]; M = Fm(inp["M"])
+        P = inp["P"]; M = Fm(inp["M"]); Ma = w.arg("mapping_matrix", lay(arr2(M, P), inp.get("lay", "c")))
+        cs = [l1f([r[j] for r in M]) for j in range(P)]
         t = tr(inp["preload"])
-        out = t.transform_mapping_matrix(mapping_matrix=arr2(M, P))
+        out = t.transform_mapping_matrix(mapping_matrix=Ma)
+        w.twice(out, lambda: t.transform_mapping_matrix(mapping_matrix=Ma))
         other = tr(not inp["preload"]).transform_mapping_matrix(mapping_matrix=arr2(M, P))
-        ok = close(other, out, 1e-12) and out.shape == (len(uv), P)
+        ok = out.shape == (len(uv), P) and close(other, out, np.array(cs).reshape((1, P)))
         for j in range(P):     # column-wise: the operator applied to column j
             col = np.array(t.visibilities_from(image=aa.Array2D(values=arr2(M, P)[:, j], mask=mask)))
-            ok = ok and close(out[:, j], col, 1e-12)
-        return dict(base, coq=f"(KTTmm {Pi} {G} {U} {cbool(inp['preload'])} {cnat(P)} {cqm(M)} {ccm(cmout(out))})",
-                    out=short(out.tolist()), py_ok=ok)
+            ok = ok and close(out[:, j], col, cs[j])
+        return fin(dict(base, coq=f"(KTTmm {Pi} {G} {U} {cbool(inp['preload'])} {cnat(P)} {cqm(M)} {ccm(cmout(out))})",
+                        out=short(out.tolist()), py_ok=ok))
     if op == "inv":
         data = pairs(inp["data"]); noise = pairs(inp["noise"])
         t = tr(inp["preload"])
-        ds = aa.DatasetInterface(data=aa.Visibilities(visibilities=cplx(data)),
-                                 noise_map=aa.VisibilitiesNoiseMap(visibilities=cplx(noise)), transformer=t)
+        ds = aa.DatasetInterface(data=w.arg("data", aa.Visibilities(visibilities=cplx(data))),
+                                 noise_map=w.arg("noise_map", aa.VisibilitiesNoiseMap(visibilities=cplx(noise))), transformer=t)
         objs = []
-        for o in inp["objs"]:
-            objs.append(aa.m.MockLinearObj(parameters=o["P"], mapping_matrix=arr2(Fm(o["M"]), o["P"]),
+        for k, o in enumerate(inp["objs"]):
+            Mk = w.arg(f"mapping_matrix[{k}]", arr2(Fm(o["M"]), o["P"]))
+            objs.append(aa.m.MockLinearObj(parameters=o["P"], mapping_matrix=Mk,
                                            regularization=aa.reg.Constant(coefficient=1.0) if o["reg"] else None))
         if inp["value"] == "default":
             settings = aa.SettingsInversion(use_w_tilde=False)
         else:
             settings = aa.SettingsInversion(use_w_tilde=False, no_regularization_add_to_curvature_diag_value=float(F(inp["value"])))
         value = frac(settings.no_regularization_add_to_curvature_diag_value)
-        if inp["factory"]:
-            inv = aa.Inversion(dataset=ds, linear_obj_list=objs, settings=settings)
-        else:
-            inv = aa.InversionInterferometerMapping(dataset=ds, linear_obj_list=objs, settings=settings)
+        def make():
+            if inp["factory"]: return aa.Inversion(dataset=ds, linear_obj_list=objs, settings=settings)
+            return aa.InversionInterferometerMapping(dataset=ds, linear_obj_list=objs, settings=settings)
+        inv = make()
         ok = type(inv).__name__ == "InversionInterferometerMapping"
-        T = np.array(inv.operated_mapping_matrix); D = np.array(inv.data_vector); Fm_ = np.array(inv.curvature_matrix)
-        cobjs = clist([ctup([cnat(o["P"]), cqm(Fm(o["M"])), cbool(o["reg"])]) for o in inp["objs"]])
-        coq = (f"(KInv {Pi} {G} {U} {cbool(inp['preload'])} {cobjs} {ccv(data)} {ccv(noise)} {cq(value)} "
-               f"{ccm(cmout(T))} {cqv(rvout(D))} {cqm(rmout(Fm_))})")
-        return dict(base, coq=coq, out=short([D.tolist(), Fm_.tolist()]), py_ok=ok)
+        # order of first access varies: F before D before T, or T, D, F
+        if len(data) % 2:
+            Fm_ = np.array(inv.curvature_matrix); D = np.array(inv.data_vector); T = np.array(inv.operated_mapping_matrix)
+        else:
+            T = np.array(inv.operated_mapping_matrix); D = np.array(inv.data_vector); Fm_ = np.array(inv.curvature_matrix)
+        # read again through the same object, and through a second inversion over the same transformer / objects
+        inv2 = make()
+        for a, b in ((T, inv.operated_mapping_matrix), (D, inv.data_vector), (Fm_, inv.curvature_matrix),
+                     (D, inv2.data_vector), (Fm_, inv2.curvature_matrix), (T, inv2.operated_mapping_matrix)):
+            if not same(a, np.array(b)): ok = False
+        def kinv(objs_d, data_, noise_, T_, D_, F_):
+            cobjs = clist([ctup([cnat(o["P"]), cqm(Fm(o["M"])), cbool(o["reg"])]) for o in objs_d])
+            return (f"(KInv {Pi} {G} {U} {cbool(inp['preload'])} {cobjs} {ccv(data_)} {ccv(noise_)} {cq(value)} "
+                    f"{ccm(cmout(T_))} {cqv(rvout(D_))} {cqm(rmout(F_))})")
+        coq = kinv(inp["objs"], data, noise, T, D, Fm_)
+        extra = []
+        sib = inp.get("sibling")
+        if sib:
+            # a second inversion in the same interpreter through the SAME transformer object, one ingredient replaced by a
+            # sibling of the same shape (rows rotated / regularization flags flipped): compared with the model independently
+            objs_d = [dict(o) for o in inp["objs"]]; data2, noise2 = data, noise
+            if sib == "M": objs_d = [dict(o, M=o["M"][1:] + o["M"][:1]) for o in objs_d]
+            elif sib == "reg": objs_d = [dict(o, reg=not o["reg"]) for o in objs_d]
+            elif sib == "data": data2 = data[1:] + data[:1] if len(set(data)) > 1 else [(a + 1, b) for a, b in data]
+            else: noise2 = noise[1:] + noise[:1] if len(set(noise)) > 1 else [(a * 2, b) for a, b in noise]
+            ds2 = aa.DatasetInterface(data=aa.Visibilities(visibilities=cplx(data2)),
+                                      noise_map=aa.VisibilitiesNoiseMap(visibilities=cplx(noise2)), transformer=t)
+            objs2 = [aa.m.MockLinearObj(parameters=o["P"], mapping_matrix=arr2(Fm(o["M"]), o["P"]),
+                                        regularization=aa.reg.Constant(coefficient=1.0) if o["reg"] else None) for o in objs_d]
+            inv3 = aa.InversionInterferometerMapping(dataset=ds2, linear_obj_list=objs2, settings=settings)
+            extra.append(kinv(objs_d, data2, noise2, np.array(inv3.operated_mapping_matrix), np.array(inv3.data_vector),
+                              np.array(inv3.curvature_matrix)))
+            # and the first inversion still reads the same
+            for a, b in ((D, inv.data_vector), (Fm_, inv.curvature_matrix)):
+                if not same(a, np.array(b)): ok = False
+        return fin(dict(base, coq=coq, extra_coq=extra, out=short([D.tolist(), Fm_.tolist()]), py_ok=ok))
     raise ValueError(op)
+
+def run_hist(aa, inp, base):
+    """interprets the recorded steps; mirrors gen_hist_one's object tables"""
+    Pi = cq(PI)
+    masks, mgeom, uvarrs, uvvals, trs = [], [], [], [], []
+    args = {}                     # argument objects of earlier calls: step id -> (object, values, geometry)
+    csteps, couts, outs = [], [], []
+    w = Watch(); ok = True; why = []
+    def note(cond, msg):
+        nonlocal ok
+        if not cond: ok = False; why.append(msg)
+    ncalls = 0
+    for st in inp["steps"]:
+        s = st["s"]
+        if s == "mask":
+            g = st["geom"]
+            if st.get("edit") is None:
+                masks.append(mk_mask(aa, g)); mgeom.append(g)
+            else:                                        # the caller edits ITS Mask2D in place (same shape, scales, origin)
+                k = st["edit"]; old = mgeom[k]["m"]
+                for y, row in enumerate(g["m"]):
+                    for x, b in enumerate(row):
+                        if old[y][x] != b: masks[k][y, x] = b
+                mgeom[k] = g
+                for t in trs:
+                    if t["mask"] == k: t["live"] = False
+        elif s == "uv":
+            vals = pairs(st["uv"])
+            if st.get("edit") is None:
+                a = np.array(flm(vals), dtype=float).reshape((len(vals), 2))
+                if st.get("dtype") == "int": a = a.astype(int)
+                uvarrs.append(lay(a, st.get("lay", "c"))); uvvals.append(vals)
+            else:
+                k = st["edit"]; uvarrs[k][...] = np.array(flm(vals)).astype(uvarrs[k].dtype); uvvals[k] = vals
+                for t in trs:
+                    if t["uv"] == k: t["live"] = False
+        elif s == "new":
+            mk, uk = st["mask"], st["uv"]
+            w.arg("uv_wavelengths", uvarrs[uk]); w.arg("real_space_mask", masks[mk])
+            t = aa.TransformerDFT(uv_wavelengths=uvarrs[uk], real_space_mask=masks[mk], preload_transform=st["preload"])
+            w.done()
+            g = mgeom[mk]; npix = npix_of(g["m"])
+            trs.append({"t": t, "mask": mk, "uv": uk, "live": True, "geom": g, "uvv": uvvals[uk], "npix": npix})
+            grid = [(frac(y), frac(x)) for y, x in np.array(t.grid).reshape((npix, 2))]
+            note(tuple(t.shape) == (len(uvvals[uk]), npix), "TransformerDFT.shape")
+            csteps.append(f"(@HNew QOpsT {cgeom(g)} {ccv(uvvals[uk])} {cbool(st['preload'])})")
+            couts.append(f"(@ONew QOpsT {ccv(grid)})"); outs.append("new")
+        else:
+            T = trs[st["t"]]; t = T["t"]; g = T["geom"]; ncalls += 1
+            if not T["live"]: raise ValueError("history addresses a retired transformer")
+            w.arg("transformer.uv_wavelengths", t.uv_wavelengths); w.arg("transformer.real_space_mask", t.real_space_mask)
+            reuse = args.get(st.get("reuse"))
+            if s == "vis":
+                img = Fv(st["img"]); how = st["how"]
+                mobj = masks[T["mask"]] if st.get("own_mask") else mk_mask(aa, g)
+                if reuse is not None and reuse[2] == g and len(reuse[1]) == len(img):
+                    im = reuse[0]                                                   # the same Array2D object again ...
+                    if reuse[1] != img:                                             # ... edited in place by the caller
+                        if np.asarray(im).ndim == 1:
+                            for j, v in enumerate(fl(img)):
+                                if Fraction(reuse[1][j]) != img[j]: im[j] = v
+                        else:
+                            for j, (y, x) in enumerate(mask_cells(g["m"])):
+                                if Fraction(reuse[1][j]) != img[j]: im[y, x] = float(img[j])
+                elif how == "native": im = aa.Array2D(values=fl(img), mask=mobj).native
+                elif how == "store_native": im = aa.Array2D(values=fl(img), mask=mobj, store_native=True)
+                elif how == "sum":                                                  # derived by arithmetic: (-img) + (2 img), exact
+                    im = aa.Array2D(values=fl([-a for a in img]), mask=mobj) + aa.Array2D(values=fl([2 * a for a in img]), mask=mobj)
+                elif how == "scaled":
+                    c = Fraction(1, 4096); im = aa.Array2D(values=fl([a / c for a in img]), mask=mobj).native * float(c)
+                else: im = aa.Array2D(values=fl(img), mask=mobj)
+                note(same(np.array(im.slim), np.array(fl(img))), "harness: derived image does not carry the intended values")
+                args[st.get("id")] = (im, img, g)
+                w.arg("image", im)
+                out = np.array(t.visibilities_from(image=im)); w.done()
+                csteps.append(f"(@HVis QOpsT {cnat(st['t'])} {cqv(img)})"); couts.append(f"(@OVis QOpsT {ccv(cvout(out))})")
+                outs.append(out.tolist())
+            elif s == "tmm":
+                P = st["P"]; M = Fm(st["M"]); how = st["how"]; a = arr2(M, P)
+                if reuse is not None and reuse[0].shape == a.shape:
+                    Ma = reuse[0]
+                    if reuse[1] != M: Ma[...] = a                                   # in-place edit of the caller's matrix
+                elif how in ("f", "view"): Ma = lay(a, how)
+                else: Ma = a
+                args[st.get("id")] = (Ma, M, None)
+                w.arg("mapping_matrix", Ma)
+                out = t.transform_mapping_matrix(mapping_matrix=Ma); w.done()
+                note(out.shape == (len(T["uvv"]), P), "transform_mapping_matrix shape")
+                csteps.append(f"(@HTmm QOpsT {cnat(st['t'])} {cnat(P)} {cqm(M)})"); couts.append(f"(@OTmm QOpsT {ccm(cmout(out))})")
+                outs.append(out.tolist())
+            elif s == "image":
+                vis = pairs(st["vis"]); how = st["how"]
+                if reuse is not None and len(reuse[1]) == len(vis):
+                    V = reuse[0]
+                    if reuse[1] != vis:
+                        for j, z in enumerate(cplx(vis)): V[j] = z                  # in-place edit of the caller's Visibilities
+                elif how == "sum":
+                    V = aa.Visibilities(visibilities=cplx([(-a, -b) for a, b in vis])) + aa.Visibilities(visibilities=cplx([(2 * a, 2 * b) for a, b in vis]))
+                else: V = aa.Visibilities(visibilities=cplx(vis))
+                note(same(np.array(V.in_array), np.array(flm(vis), dtype=float).reshape((len(vis), 2))),
+                     "harness: derived visibilities do not carry the intended values")
+                args[st.get("id")] = (V, vis, None)
+                w.arg("visibilities", V)
+                res = t.image_from(visibilities=V); w.done()
+                out = np.array(res.slim)
+                note(res.shape_native == t.real_space_mask.shape_native and
+                     bool(np.all(np.array(res.native)[np.array(t.real_space_mask)] == 0.0)), "image_from: masked entries / shape")
+                csteps.append(f"(@HImage QOpsT {cnat(st['t'])} {ccv(vis)})"); couts.append(f"(@OImage QOpsT (Ok {cqv(rvout(out))}))")
+                outs.append(out.tolist())
+            else: raise ValueError(s)
+    ok = ok and w.ok; why += w.why
+    return dict(base, kind="hist", coq=f"(KHist {Pi} {clist(csteps)} {clist(couts)})", out=short(outs), py_ok=ok,
+                detail=None if ok else "; ".join(why), nontrivial=len(trs) >= 2 and ncalls >= 2)
